@@ -75,8 +75,10 @@ fn strategy() -> BoxedStrategy<C01Case>
     (
         any::<bool>(),
         prop_oneof![
-            9 => vec(vec((skind(), any::<u8>()), 0..=12), 1..=8),
-            1 => vec(vec((skind(), any::<u8>()), 0..=3), 20..=60),
+            36 => vec(vec((skind(), any::<u8>()), 0..=12), 1..=8),
+            4 => vec(vec((skind(), any::<u8>()), 0..=3), 20..=60),
+            // more files than any plausible batch / buffer size of the scanner (rare: these trees are big)
+            1 => vec(vec((skind(), any::<u8>()), 0..=1), 513..=700).prop_filter("rare", |_| true),
         ],
         prop_oneof![
             3 => Just(LockMode::Absent),
@@ -380,7 +382,7 @@ pub fn run(env: &Env, rec: &Recorder) -> (String, Vec<&'static str>)
 {
     pbt(env, rec, "ids", env.cases(4000, 60_000), &strategy, &check);
     (
-        "trees of 1-8 files with 0-12 statements each (10 %: 20-60 small files); every statement independently missing / carrying an ID / ignored / unusable / commented-out; ID classes small-dense, sparse, 0, u32::MAX-j, arbitrary, duplicates; both styles; lock absent / disabled with arbitrary content / consistent (max+1+delta, incl. values whose range crosses u32::MAX). Oracle over the decomposed insertions: pairwise distinct, disjoint from IDs of recognised statements, within 1..=4294967295, above max existing (no lock) or >= lock; on exhaustion exit != 0 and still no duplicate / out-of-range ID. Non-trivial = distinct tree where >= 2 files receive insertions and IDs exist, or a boundary-class tree with missing references".to_string(),
+        "trees of 1-8 files with 0-12 statements each (10 %: 20-60 small files; 2.5 %: 513-700 files); every statement independently missing / carrying an ID / ignored / unusable / commented-out; ID classes small-dense, sparse, 0, u32::MAX-j, arbitrary, duplicates; both styles; lock absent / disabled with arbitrary content / consistent (max+1+delta, incl. values whose range crosses u32::MAX). Oracle over the decomposed insertions: pairwise distinct, disjoint from IDs of recognised statements, within 1..=4294967295, above max existing (no lock) or >= lock; on exhaustion exit != 0 and still no duplicate / out-of-range ID. Non-trivial = distinct tree where >= 2 files receive insertions and IDs exist, or a boundary-class tree with missing references".to_string(),
         vec!["inconsistent locks (behind the tree) are outside the statement and not generated", "IDs of statements outside the scanned set (comments, ignored) may collide and are not required disjoint"],
     )
 }
